@@ -153,6 +153,8 @@ R = {
     "exc_cast_spellings": tiered(round7.exc_cast_spellings),
     "det_sampler_state": tiered(round7.det_sampler_state),
     "own_meta_edges": tiered(round7.own_meta_edges),
+    "prov_fragment_text": tiered(round7.prov_fragment_text),
+    "key_parity_of_distance": tiered(round7.key_parity_of_distance),
     "sent_numeric_attrs": tiered(extra.sent_numeric_attrs),
     "ord_complete_loops": tiered(extra.ord_complete_loops),
     "own_mutable_defaults_layout": named("own_mutable_defaults_layout", own.own_mutable_defaults, "quick", tuple(own.SKIP_MODULES), 2),
@@ -386,6 +388,18 @@ _ROUND8_TEXT = {
     "C14": "a second table handed to create_dialect does not become further positional slots",
     "C20": "a second table handed to create_dialect does not become further positional slots (too many positional values stay an error)",
 }
+_ROUND9_TEXT = {
+    "C01": "the fragment readers are handed the clean text returned by strip_bonding_descriptors; every path from a new bond to a return passes the hydrogen bookkeeping",
+    "C03": "the matching convention asked for reaches the resolver through every constructor",
+    "C06": "the fragment readers are handed the clean text returned by strip_bonding_descriptors",
+    "C08": "the fragment readers are handed the clean text returned by strip_bonding_descriptors",
+    "C09": "every path from a new bond to a return passes the hydrogen bookkeeping",
+    "C13": "the fragment readers are handed the clean text returned by strip_bonding_descriptors",
+    "C16": "every path from a new bond to a return passes the hydrogen bookkeeping",
+    "C19": "odd / even is asked of the hop count of the shortest-path table, not of a node key",
+}
+for _pid, _txt in _ROUND9_TEXT.items():
+    _ROUND8_TEXT[_pid] = (_ROUND8_TEXT[_pid] + "; " + _txt) if _pid in _ROUND8_TEXT else _txt
 for _pid, _txt in _ROUND8_TEXT.items():
     _ROUND7_TEXT[_pid] = (_ROUND7_TEXT[_pid] + "; " + _txt) if _pid in _ROUND7_TEXT else _txt
 for _pid, _txt in _ROUND7_TEXT.items():
@@ -403,6 +417,10 @@ _ROUND7 = {
     "det_sampler_state": (["C16", "C17"], {"DET.sampler-state": 1}),
     "own_meta_edges": (["C03", "C06", "C12"], {"OWN.meta-edges": 1}),
     "ord_resolve_annotate": (["C06"], {}),
+    "prov_fragment_text": (["C06", "C13", "C08", "C01"], {"PROV.fragment-text": 2}),
+    "key_parity_of_distance": (["C19"], {}),
+    # the matching convention the user asked for has to arrive at the matcher through every constructor (C03: "both conventions")
+    "sib_constructors": (["C03"], {}),
     "idx_branch_stop": (["C04"], {"IDX.branch-stop": 1}),
     "exc_cast_spellings": (["C14"], {"EXC.cast-spellings": 1}),
     # a `.` in front of one ring marker is the order of that ring bond only (zero-order ring bonds attach virtual nodes: C11)
